@@ -22,7 +22,11 @@ def make(pid, tags, clauses, gen_kwargs, quick=300, thorough=6000):
         # several parameter sets are used in turn (e.g. a family with raising callbacks)
         families = gen_kwargs if isinstance(gen_kwargs, (list, tuple)) else [gen_kwargs]
         for i in range(quick if tier == 'quick' else thorough):
-            yield gen_world.gen_scenario(rng, **families[i % len(families)])
+            fam = families[i % len(families)]
+            if fam.get('reenter') and rng.random() < 0.5:
+                yield gen_world.gen_reentrant_targeted(rng)
+            else:
+                yield gen_world.gen_scenario(rng, **fam)
 
     def project(obs):
         return [o for o in norm_ret(obs) if o.split()[0] in tags]
